@@ -7,3 +7,7 @@ for p in signal_family.PROPS:
 import pool_family
 CHECKS["C10"] = pool_family.run
 CHECKS["C11"] = pool_family.run
+
+import num_family
+for p in num_family.PROPS:
+    CHECKS[p] = num_family.run
